@@ -32,9 +32,24 @@ case "${1:-}" in
   C*)
     id=$1; tier=${2:-${VERIF_TIER:-quick}}
     case "$id" in
-      C05|C10) build vcheck-race -race || exit 3; exec ./bin/vcheck-race -tier "$tier" "$id" ;;
-      *) build vcheck || exit 3; exec ./bin/vcheck -tier "$tier" "$id" ;;
+      C05|C10) build vcheck-race -race || exit 3; bin=./bin/vcheck-race ;;
+      *) build vcheck || exit 3; bin=./bin/vcheck ;;
     esac
+    log="replays/$id-$tier-last.log"
+    $bin -tier "$tier" "$id" 2>&1 | tee "$log"
+    rc=${PIPESTATUS[0]}
+    if [ "$rc" != 0 ] && [ "$rc" != 1 ] && ! grep -q '^INCONCLUSIVE property=' "$log"; then
+      # the process died (Go runtime fatal error, unrecovered panic, signal) while running
+      # tcell under the monitor: that is a fault of the code under test, not a verdict of held
+      if grep -qE '^(fatal error:|panic:|SIG[A-Z]+:)' "$log"; then
+        cp "$log" "replays/$id-$tier-crash.log"
+        echo "VIOLATION property=$id replay=$PWD/replays/$id-$tier-crash.log"
+        echo "   signature: process-crash"
+        grep -m3 -E '^(fatal error:|panic:|SIG[A-Z]+:)' "$log" | sed 's/^/   /'
+        exit 1
+      fi
+    fi
+    exit $rc
     ;;
   *) echo "usage: $0 setup | <Cnn> quick|thorough | replay <file>" >&2; exit 3 ;;
 esac
